@@ -120,8 +120,8 @@ def _run_cli(prop, tier, seed, v, wd):
         futs = []
         mcs, exps = list(MC_PLAN[tier]), list(EXPORT_PLAN[tier])
         if prop == "C12" and tier == "thorough":
-            # every row is executed twice (directory and URL, real HTTP round trips): four of the six exports
-            mcs, exps = mcs[:4], exps[:4]
+            # every row is executed twice (directory and URL, real HTTP round trips): three of the six exports (about an hour)
+            mcs, exps = mcs[:3], exps[:3]
         if prop in ("C09", "C08"):
             # zero values and stored NaNs (instantiated as -0 / +0 and as NaNs with different payloads by the harness)
             mcs.append(("CLayoutsQuick", "MethodSum", "XffZero", 0, "Vals0", 2, False))
@@ -206,8 +206,8 @@ def _run_cli(prop, tier, seed, v, wd):
         futs = []
         mcs, exps = list(MC_PLAN[tier]), list(EXPORT_PLAN[tier])
         if prop == "C12" and tier == "thorough":
-            # every row is executed twice (directory and URL, real HTTP round trips): four of the six exports
-            mcs, exps = mcs[:4], exps[:4]
+            # every row is executed twice (directory and URL, real HTTP round trips): three of the six exports (about an hour)
+            mcs, exps = mcs[:3], exps[:3]
         if prop in ("C09", "C08"):
             # zero values and stored NaNs (instantiated as -0 / +0 and as NaNs with different payloads by the harness)
             mcs.append(("CLayoutsQuick", "MethodSum", "XffZero", 0, "Vals0", 2, False))
